@@ -98,7 +98,15 @@ def run_case(case, ch: Choices) -> RunResult:
     _odd_env = [None]
     _user_cfg = [None]
 
+    _peer_fault = [None]
+    _import_elsewhere = [False]        # (the reference generation is an ordinary command line run)
+
     def run_child(*a, **kw):
+        if world.get("default_target_path") and _import_elsewhere[0]:
+            kw.setdefault("import_cwd", base)     # the interpreter imported the package before it entered the project directory
+        if world.get("remote"):
+            # the schema comes from the simulated endpoint; in some steps its FIRST answer of the process is a transient 5xx / 429
+            kw.setdefault("http", {"sdl": worlds.sdl_of(world), "fault": _peer_fault[0], "content_type": "application/json"})
         if _odd_env[0] is not None and "env" not in kw:
             kw["env"] = _odd_env[0]
         if _user_cfg[0] is not None:
@@ -117,7 +125,8 @@ def run_case(case, ch: Choices) -> RunResult:
             (ch.draw("lay.symlink", 2 ** 16) if spart and ch.chance("lay.symlink_on", 1, 12) else None)
         if symlink_seed is not None or world.get("layout_symlink"):
             res.bump("probe.schema_file_reachable_under_two_names")
-        m0 = worlds.materialize(world, root0, spart, qpart, tail_seed=tail_seed, symlink_seed=symlink_seed)
+        m0 = worlds.materialize(world, root0, spart, qpart, tail_seed=tail_seed, symlink_seed=symlink_seed,
+                                remote_url=("http://schema.test/graphql" if world.get("remote") else None))
         r0 = run_child(root0, m0["argv"], m0["targets"], hashseed=0, clock=1_700_000_000.0)
         if r0.get("harness_failure"):
             raise RuntimeError("child failed: %s" % r0.get("child_stderr"))
@@ -172,7 +181,12 @@ def run_case(case, ch: Choices) -> RunResult:
                 res.bump("fault.locale_of_the_generating_process_changed")
             root = os.path.join(base, "s%d" % si)
             m = worlds.materialize(world, root, spart, qpart, creation_order_seed=st["creation_seed"], tail_seed=tail_seed,
-                                   symlink_seed=symlink_seed)
+                                   symlink_seed=symlink_seed, remote_url=("http://schema.test/graphql" if world.get("remote") else None))
+            _import_elsewhere[0] = True
+            _peer_fault[0] = None
+            if world.get("remote") and ((st.get("hashseed") or 0) + si) % 2 == 0:
+                _peer_fault[0] = {"kind": "status_once", "status": [503, 502, 429][si % 3]}
+                res.bump("fault.first_introspection_answer_transient_error")
             if world.get("literal_odd_dirs"):
                 # HOME and GRAPHQL_SOURCES of this step's process name directories that hold copies of the same files: if '~' or
                 # '$GRAPHQL_SOURCES' were expanded the generator would still find its inputs - but under another path
@@ -292,6 +306,8 @@ def run_case(case, ch: Choices) -> RunResult:
                 res.bump("prior.twice")
             elif prior == "fresh":
                 res.bump("prior.fresh")
+            if prior == "other_cwd" and world.get("default_target_path"):
+                prior = "fresh"        # (the default target IS the working directory: another one legitimately moves the output)
             if prior == "other_cwd" and ref["exit"] == 0:
                 # the same project (absolute paths in its configuration) generated from three working directories: its root, a
                 # sub-directory of it (configuration found by walking up) and a directory outside (--config)
@@ -344,6 +360,9 @@ def run_case(case, ch: Choices) -> RunResult:
                 res.bump("fault.creation_order_permuted")
             trace.append("step%d: env=%s -> exit=%s exc=%s files=%d" % (si, json.dumps(st), got["exit"], got["exc_type"], len(got["tree"])))
             key = {"prior": prior}
+            if _peer_fault[0] is not None and got["exit"] != 0 and ref["exit"] == 0:
+                res.bump("steps.failed_under_transient_peer_fault")
+                continue        # the endpoint failed this run: no generation happened; only a COMPLETED generation is compared
             if got["exit"] != ref["exit"] or got["exc_type"] != ref["exc_type"]:
                 res.violations.append(Violation("outcome-differs", "step %d (%s): exit %s / %s, reference exit %s / %s; message %r" % (
                     si, json.dumps(st), got["exit"], got["exc_type"], ref["exit"], ref["exc_type"], got["exc_msg"]), key))
